@@ -221,8 +221,14 @@ Chase(s, n, seen) ==
        IF e.body # "alias" THEN n
        ELSE IF n \in seen THEN "cycle" ELSE Chase(s, e.refs[1].to, seen \cup {n})
 
-LocalNames(e) == {e.locals[l].n : l \in {l \in 1..Len(e.locals) : e.locals[l].n # ""}}
-BlockNames(e) == {e.locals[l].n : l \in {l \in 1..Len(e.locals) : e.locals[l].lk = "block"}}
+\* the key of a local: its name; the FIRST unnamed value of a function (parameter, block or instruction) is %0, which
+\* references spell as the bare numeral UndefN (later unnamed values are not referenced by the patterns)
+NumberedKinds == {"param", "block", "inst", "lpad", "catchswitch", "catchpad", "cleanuppad"}
+LocalKey(e, l) == IF e.locals[l].n # "" THEN e.locals[l].n
+                  ELSE IF e.locals[l].lk \in NumberedKinds /\ ~\E x \in 1..(l - 1) : e.locals[x].n = "" /\ e.locals[x].lk \in NumberedKinds
+                       THEN UndefN ELSE ""
+LocalNames(e) == {LocalKey(e, l) : l \in 1..Len(e.locals)} \ {""}
+BlockNames(e) == {LocalKey(e, l) : l \in {l \in 1..Len(e.locals) : e.locals[l].lk = "block"}} \ {""}
 \* a reference resolves iff its target is defined in the index of its class
 RefDefined(s, e, r) ==
   LET c == RefClass(r.rk) IN
